@@ -107,7 +107,7 @@ class StreamItemQueue:
             self._aborted = True
             self._failed = True
             await self._settle_pending()
-            on_abort = self._on_abort
+            on_abort, self._on_abort = self._on_abort, None  # run only once
             if on_abort is not None:
                 cleanup = on_abort(error)
                 if is_awaitable(cleanup):
@@ -228,7 +228,7 @@ class StreamItemQueue:
             future.cancel()
         if not running and not self._pending_futures:
             # nothing to cancel asynchronously, just run the cleanup callback
-            on_abort = self._on_abort
+            on_abort, self._on_abort = self._on_abort, None  # run only once
             if on_abort is not None:
                 cleanup = on_abort(reason)
                 if is_awaitable(cleanup):
@@ -260,7 +260,7 @@ class StreamItemQueue:
             self._producer_cancelled = True
             await gather(producer_task, return_exceptions=True)
         await self._settle_pending()
-        on_abort = self._on_abort
+        on_abort, self._on_abort = self._on_abort, None  # run only once
         if on_abort is not None:
             cleanup = on_abort(reason)
             if is_awaitable(cleanup):
